@@ -158,18 +158,18 @@ pub async fn request_certificate(
 		}
 
 		// Fetch the associated challenges
-		let current_identifier = cert.get_identifier_from_str(&auth.identifier.value)?;
+		let current_identifier =
+			cert.get_identifier_from_str(&auth.identifier.value, auth.wildcard.unwrap_or(false))?;
 		let current_challenge = current_identifier.challenge;
 		for challenge in auth.challenges.iter() {
 			if current_challenge == *challenge {
 				let (proof, raw_proof) =
 					challenge.get_proof(&account_s.read().await.current_key.key)?;
 				let file_name = challenge.get_file_name();
-				let identifier = auth.identifier.value.to_owned();
 
 				// Call the challenge hook in order to complete it
 				let mut data = cert
-					.call_challenge_hooks(&file_name, &proof, raw_proof, &identifier)
+					.call_challenge_hooks(&file_name, &proof, raw_proof, &current_identifier)
 					.await?;
 				data.0.is_clean_hook = true;
 				hook_datas.push(data);
